@@ -292,4 +292,33 @@ theorem lift_step (c : Cfg) (s : State) (t : Nat) (L : Label) (ls' : LState) (o0
     by_cases hcas : s.nxt (s.th t).prev = (s.th t).iter <;>
       simp_all [step, stepAdd, proj, mk, unlink, setTh]
 
+/-- no step of the local automaton changes the `node` argument of the call in progress -/
+theorem lgcPos_node {rev : Nat → Nat} {x y : Thr} (h : lgcPos rev x = some y) : y.node = x.node := by
+  unfold lgcPos at h; split at h
+  · cases hr : retPc x.gcont <;> simp [hr] at h; subst h; rfl
+  · cases h; rfl
+theorem lstep_node {rev : Nat → Nat} {ls ls' : LState} {l : LLabel} (h : lstep rev ls l = some ls') :
+    ls'.x.node = ls.x.node := by
+  rcases ls with ⟨x, pend, out⟩
+  cases pend with
+  | hash n => cases l <;> simp [lstep] at h; obtain ⟨_, rfl⟩ := h; rfl
+  | bkt hh => cases l <;> simp [lstep] at h; obtain ⟨_, rfl⟩ := h; rfl
+  | none =>
+    cases hpc : x.pc <;> cases l <;> simp [lstep, hpc, mk] at h
+    all_goals first
+      | (obtain ⟨_, rfl⟩ := h; rfl)
+      | (obtain ⟨_, y, hy, rfl⟩ := h; simpa using lgcPos_node hy)
+      | (obtain ⟨_, h⟩ := h; split at h <;> first | (simp at h; subst h; rfl) | (simp at h; obtain ⟨y, hy, rfl⟩ := h; simpa using lgcPos_node hy))
+      | (split at h <;> first | (obtain ⟨_, rfl⟩ := h; rfl) | (cases h; rfl) | (simp at h; subst h; rfl))
+theorem lrun_node {rev : Nat → Nat} : ∀ {ll : List LLabel} {ls ls' : LState}, lrun rev ls ll = some ls' →
+    ls'.x.node = ls.x.node := by
+  intro ll
+  induction ll with
+  | nil => intro ls ls' h; cases h; rfl
+  | cons l r ih =>
+    intro ls ls' h; simp only [lrun] at h
+    cases hs : lstep rev ls l with
+    | none => simp [hs] at h
+    | some m => rw [hs] at h; rw [ih h, lstep_node hs]
+
 end UrcuVerif.Src.LfhtL
